@@ -88,7 +88,13 @@ func (pw *packetWriter) Write(p []byte) (n int, err error) {
 func (pw *packetWriter) ReadFrom(r io.Reader) (n int64, err error) {
 	buf := pw.pkt[:]
 	for {
-		nr, er := r.Read(buf)
+		nr := 0
+		var er error
+		for nr < PacketSize && er == nil { // fill one packet whatever the fragmentation
+			var k int
+			k, er = r.Read(buf[nr:])
+			nr += k
+		}
 		if nr == PacketSize {
 			nw, ew := pw.WritePacket(&pw.pkt)
 			if nw > 0 {
